@@ -1344,3 +1344,84 @@ func descFval(x fval) string {
 	}
 	return descValue(x.v)
 }
+
+// copyOf: v is a fresh slice holding a complete copy of src:
+// append([]T(nil), src...), append([]T{}, src...), bytes.Clone(src),
+// slices.Clone(src), or make([]T, len(src)) filled by copy(v, src).
+func copyOf(v ssa.Value) (src ssa.Value, ok bool) {
+	v = ir.Strip(ir.ResolveCell(v))
+	switch x := v.(type) {
+	case *ssa.Call:
+		if b, isB := x.Call.Value.(*ssa.Builtin); isB && b.Name() == "append" && len(x.Call.Args) == 2 {
+			if emptySlice(x.Call.Args[0]) {
+				if _, isSlice := x.Call.Args[1].Type().Underlying().(*types.Slice); isSlice {
+					return x.Call.Args[1], true
+				}
+			}
+			return nil, false
+		}
+		id := staticID(x)
+		if (id == "bytes.Clone" || strings.HasPrefix(id, "slices.Clone")) && len(x.Call.Args) == 1 {
+			return x.Call.Args[0], true
+		}
+	case *ssa.MakeSlice:
+		// make([]T, len(src)) + copy(v, src)
+		ln, isCall := x.Len.(*ssa.Call)
+		if !isCall {
+			return nil, false
+		}
+		if b, isB := ln.Call.Value.(*ssa.Builtin); !isB || b.Name() != "len" || len(ln.Call.Args) != 1 {
+			return nil, false
+		}
+		want := ln.Call.Args[0]
+		if x.Referrers() == nil {
+			return nil, false
+		}
+		for _, r := range *x.Referrers() {
+			if call, isC := r.(*ssa.Call); isC {
+				if b, isB := call.Call.Value.(*ssa.Builtin); isB && b.Name() == "copy" && len(call.Call.Args) == 2 && call.Call.Args[0] == ssa.Value(x) && call.Call.Args[1] == want {
+					return want, true
+				}
+			}
+		}
+	}
+	return nil, false
+}
+
+// emptySlice: nil, or a slice value of length zero ([]T{}, make([]T, 0)).
+func emptySlice(v ssa.Value) bool {
+	if ir.IsNilConst(v) {
+		return true
+	}
+	switch x := v.(type) {
+	case *ssa.MakeSlice:
+		if c, ok := x.Len.(*ssa.Const); ok && c.Value != nil && constant.Sign(c.Value) == 0 {
+			return true
+		}
+	case *ssa.Slice:
+		if a, ok := x.X.(*ssa.Alloc); ok {
+			if pt, ok := a.Type().Underlying().(*types.Pointer); ok {
+				if arr, ok := pt.Elem().Underlying().(*types.Array); ok && arr.Len() == 0 {
+					return true
+				}
+			}
+		}
+	}
+	return false
+}
+
+// sliceRoot strips reslicing and type changes: the value whose backing array v shares.
+func sliceRoot(v ssa.Value) ssa.Value {
+	for i := 0; i < 8; i++ {
+		v = ir.Strip(ir.ResolveCell(v))
+		s, ok := v.(*ssa.Slice)
+		if !ok {
+			return v
+		}
+		if _, isSlice := s.X.Type().Underlying().(*types.Slice); !isSlice {
+			return v
+		}
+		v = s.X
+	}
+	return v
+}
